@@ -190,6 +190,9 @@ def handleBindR (k remote : String) : Option String := do
 def handle (args : List String) : Option String :=
   match args with
   | ["hdr", ws, xmlns, to, src, id, lang, emitted] => handleHdr ws xmlns to src id lang emitted
+  -- the same after a history of other sessions: `Send` keeps nothing between calls
+  -- (`HeaderSend.run_perCall`), so the history field does not enter the answer
+  | ["hdrp", _prior, ws, xmlns, to, src, id, lang, emitted] => handleHdr ws xmlns to src id lang emitted
   | "neg" :: role :: ws :: s2s :: loc :: orig :: jids :: hdrs => handleNeg role ws s2s loc orig jids none hdrs
   | "nege" :: role :: ws :: s2s :: loc :: orig :: jids :: tee :: budget :: cancel :: hdrs =>
     handleNeg role ws s2s loc orig jids (some (tee, budget, cancel)) hdrs
